@@ -22,6 +22,16 @@ CLAIMED["C19"] = ("Proof over an abstract block cipher (uninterpreted ENC/DEC of
  "callers do not pass slices that alias the MAC object's internal arrays.",
  "DESIGN.md §4 C19")
 
+CLAIMED["C01"] = ("Proof, over an uninterpreted compression function and a ghost message, that the streaming digest keeps its invariant for every split of "
+ "Write calls (h = fold of CF over the whole blocks of the message, buffer = the tail), that checkSum/Sum return the big-endian words of the fold over M||pad(L) "
+ "(padding bytes and length field proved equal to the standard's), that Sum leaves the state untouched (frame), Reset restarts; that kdfGeneric returns exactly "
+ "Ha_1||Ha_2||... truncated (GB/T 32918.4 KDF, unbounded length), Kdf/kdf dispatch and the lane glue (kdfBy4/kdfBy8: lane sizing blocks*64 == nx+4+t+8, all indexing in range). "
+ "The assembly tiers are assumed equal to the fold (trusted contracts) and backed by a bounded differential check, labelled bounded. Not decided: MarshalBinary/UnmarshalBinary round trip "
+ "(path explosion in AppendBinary), the pure-Go compression rounds against the standard's round functions, kdf.Kdf generic paths.",
+ "Trusted: blockAVX2/blockSIMD/blockAMD64, blockMultBy4/8, copyResultsBy4/8 (assembly; assumed contracts + bounded check), SM3CF uninterpreted, spec functions SM3F/SM3W/SM3PADARR/CAT, "
+ "messages shorter than 2^61 bytes, callers do not pass slices aliasing the digest's internal buffer.",
+ "DESIGN.md §4 C01")
+
 NOT_APPLICABLE = {
 }
 
